@@ -111,11 +111,16 @@ TBegin == /\ vPh = "idle" /\ IsEv("Run")
 \* several cycles per TLC step (bounded recursion): [vY, vWr, vK] after at most Chunk cycles.
 \* (A LET placed directly in an action is re-evaluated by TLC at every use, operator arguments are not:
 \* hence the helper operators instead of LETs.)
+\* After a quiescent cycle (System!QuietStep) the remaining budget is taken in one step up to the common horizon of the
+\* ticking components (System!Jump): long idle stretches cost one TLC step, not one per cycle.
 RECURSIVE Cycles(_, _, _, _)
-CyclesNext(y1, ww, kk, budget) == Cycles(y1, ww \cup Written(y1.c), kk - 1, budget - 1)
+AfterJump(j, ww, kk, budget) == Cycles(j.y, ww, kk - j.k, budget - 1)
+CyclesNext(yy, y1, ww, kk, budget) ==
+    IF kk > 4 /\ QuietStep(yy, y1) THEN AfterJump(Jump(y1, kk - 1), ww, kk - 1, budget)
+    ELSE Cycles(y1, ww \cup Written(y1.c), kk - 1, budget - 1)
 Cycles(yy, ww, kk, budget) ==
     IF kk = 0 \/ budget = 0 \/ yy.c.out # "ok" THEN [fy |-> yy, fwr |-> ww, fk |-> kk]
-    ELSE CyclesNext(Cycle(yy), ww, kk, budget)
+    ELSE CyclesNext(yy, Cycle(yy), ww, kk, budget)
 Chunk == 1
 StepApply(t) == vY' = t.fy /\ vWr' = t.fwr /\ vK' = t.fk
 TStep  == /\ vPh = "run" /\ vK > 0 /\ vY.c.out = "ok"
